@@ -243,3 +243,32 @@ Definition c14_quiet_sb (log_len : N) : bool := log_len =? 0.
     [p] are exactly [p]. *)
 Definition c14_roundtrip_sb (p : str) (terse ran : list str) : bool :=
   list_eqb str_eqb terse [p ++ s_benchmark] && list_eqb str_eqb ran [p].
+
+(** * Which cases a walk executes, said directly (no painter, no flags):
+    the reference against which [run_forest], [list_forest] and [retain] are
+    proved (Proofs/Driver.v). *)
+Definition leaf_ignored (c : cfg) (options : option opts) : bool :=
+  should_ignore c (default_false
+    (opt_or (o_ignore (c_opts c)) (match options with Some o => o_ignore o | None => None end))).
+
+Definition arg_case (e : any_entry) (vals : list value) (path : str) (i : N) : list (N * str * option (N * value)) :=
+  match nth_error vals (N.to_nat i) with
+  | Some v => [(entry_id e, arg_path path e i, Some (i, v))]
+  | None => []
+  end.
+
+Fixpoint exec_node (c : cfg) (pp : str) (po : option opts) (t : tree) : list (N * str * option (N * value)) :=
+  let options := merge_opts po (node_opts t) in
+  let path := join_path pp (display_name t) in
+  match t with
+  | Leaf e args =>
+      if leaf_ignored c options then []
+      else match entry_runner e with
+           | RPlain => [(entry_id e, path, None)]
+           | RArgs _ vals =>
+               flat_map (arg_case e vals path) (match args with Some l => l | None => [] end)
+           end
+  | Parent _ _ ch => flat_map (exec_node c path options) ch
+  end.
+Definition exec_forest (c : cfg) (pp : str) (po : option opts) (l : list tree) :=
+  flat_map (exec_node c pp po) l.
